@@ -49,7 +49,7 @@ func (e *Env) objectIntegrity(v *spec.Version, upTo string) {
 		// ... and a well-formed token is accepted: the only value test of an arm is "parsed value == the type's
 		// unknown/invalid constant" (a test against another constant rejects a specification code, and the vector
 		// it occurs in has no score at all)
-		if o.Rule == "wiring" || o.Rule == "arm-parser" || o.Rule == "arm-value" {
+		if o.Rule == "wiring" || o.Rule == "arm-parser" || o.Rule == "arm-value" || o.Rule == "reject-path" {
 			kept = append(kept, o)
 		}
 	}
@@ -69,21 +69,26 @@ func (e *Env) objectIntegrity(v *spec.Version, upTo string) {
 	}
 	kept = e.C.Obs[:before]
 	for _, o := range e.C.Obs[before:] {
-		if o.Rule == "delegation-first" || o.Rule == "order-independence" {
+		if o.Rule == "delegation-first" || o.Rule == "order-independence" || o.Rule == "reject-path" || o.Rule == "arm-value" {
 			kept = append(kept, o)
 		}
 	}
 	e.C.Obs = kept
 	// ... and every level's Decode fills in the object it was called on (or a fresh one for a nil receiver) and
 	// returns that same object: a decoder that fills in another object leaves the caller's empty (score 0), one
-	// that dereferences a nil receiver has no score at all
+	// that dereferences a nil receiver has no score at all. And a well-formed vector has a score only if it is
+	// accepted: every rejection - of a token (reject-path), of the vector (decode-rejections), of the decoded
+	// object (validity-rejections) - must be caused by a defect the specification names. (The other direction,
+	// that every malformed vector is rejected, is C07/C08's and not needed for the score of a well-formed one.)
 	before = len(e.C.Obs)
 	for _, l := range all {
 		e.decodeSkeleton(l, v.Name == "v3")
+		e.getErrorRules(l, func(kind string) []string { return sentinelFor(v, l, kind) })
 	}
 	kept = e.C.Obs[:before]
 	for _, o := range e.C.Obs[before:] {
-		if o.Rule == "nil-receiver-decode" {
+		switch o.Rule {
+		case "nil-receiver-decode", "decode-rejections", "validity-rejections":
 			kept = append(kept, o)
 		}
 	}
